@@ -1,0 +1,12 @@
+//go:build verif
+
+package serialization
+
+// Contracts checked by /verif/gocv (comment-only file; see /verif/DESIGN.md).
+//
+// C27, serializer half: every serializer decodes exactly what it encoded. The codecs are outside what the deductive
+// engine models; verifRoundTrip (zz_spec_verif.go) is a ghost scenario whose postcondition is used as the oracle of a
+// bounded random search on the real code. BOUNDED: it can find a violation, finding none proves nothing.
+//@ func verifRoundTrip
+//@ mode nosafety
+//@ ensures[C27:serializer-round-trip] result
